@@ -32,6 +32,7 @@ def main():
     pycommon.k0_texts(chk, o, ep, "expression kinds x positions k=0", wall=150 if chk.quick else 900, vac=("ok", "SyntaxError"))
     pycommon.indent_skeleton(chk, o, 5 if chk.quick else 6, pycommon.CORE_OPTS, wall=150 if chk.quick else 1500)
     pycommon.indent_skeleton(chk, o, 2 if chk.quick else 3, pycommon.RICH_OPTS, wall=120 if chk.quick else 1500, label="rich")
+    pycommon.indent_skeleton(chk, o, 3, pycommon.WS_OPTS, wall=120 if chk.quick else 600, label="whitespace")
     if chk.quick:
         pycommon.b_holes(chk, o, [s for s in seeds.PY_SNIPPETS if len(s) < 28], 0, wall=150, insert=True, name="B-holes insert k=1")
         pycommon.b_holes(chk, o, seeds.sample(chk.rng, py, 80), 3, wall=120)
